@@ -137,5 +137,169 @@ theorem rk_bridge (v : List Nat) : rk v = PermLex.rk v := by
     simp only [rk, PermLex.rk, ih, fact_bridge]
     rfl
 
+/-! ### the successive index vectors -/
+
+/-- `Permutations::next` on the index vector alone -/
+def stepIdx (o : Option (List Nat)) : Option (List Nat × Option (List Nat)) :=
+  o.map fun v => (v, Perm.advance v)
+
+theorem idx_unfolds : ∀ (r : Nat) (v : List Nat), v.Nodup → rk v = r →
+    ∃ M, Unfolds stepIdx (some v) M ∧ (∀ m ∈ M, m.Perm v) ∧
+      M.map rk = (List.range (r + 1)).reverse := by
+  intro r
+  induction r with
+  | zero =>
+    intro v hnd hr
+    have hs := stepOk v hnd
+    cases ha : Perm.advance v with
+    | some v' =>
+      have := (hs.1 v' ha).1
+      rw [lenNat_eq_rk, lenNat_eq_rk] at this
+      omega
+    | none =>
+      refine ⟨[v], .step (s' := none) (show stepIdx (some v) = some (v, none) by simp [stepIdx, ha]) (.done rfl), ?_, by simp [hr]⟩
+      intro m hm
+      simp at hm
+      subst hm
+      exact List.Perm.refl _
+  | succ r ih =>
+    intro v hnd hr
+    have hs := stepOk v hnd
+    cases ha : Perm.advance v with
+    | none =>
+      have := hs.2 ha
+      rw [lenNat_eq_rk] at this
+      omega
+    | some v' =>
+      obtain ⟨e1, hnd', _⟩ := hs.1 v' ha
+      rw [lenNat_eq_rk, lenNat_eq_rk] at e1
+      have hp := advance_perm v hnd v' ha
+      obtain ⟨M, hu, hm, hrk⟩ := ih v' hnd' (by omega)
+      refine ⟨v :: M, .step (show stepIdx (some v) = some (v, some v') by simp [stepIdx, ha]) hu, ?_, ?_⟩
+      · intro m hmem
+        rcases List.mem_cons.mp hmem with rfl | hmem
+        · exact List.Perm.refl _
+        · exact (hm m hmem).trans hp
+      · rw [List.map_cons, hrk, hr, List.range_succ (n := r + 1), List.reverse_append]
+        rfl
+
 end PermT
+
+open PermT in
+/-- **the successive index vectors of `Permutations::next` from the identity are the lexicographic
+closed form** `permsN n [0, …, n−1]`, in that order, for every `n` (shared with C13) -/
+theorem perm_states_enumeration (n : Nat) :
+    Unfolds PermT.stepIdx (some (List.range n)) (PermLex.permsN n (List.range n)) := by
+  have hasc : (List.range n).Pairwise (· < ·) := List.pairwise_lt_range
+  have hnd : (List.range n).Nodup := List.nodup_range
+  obtain ⟨M, hu, hm, hrk⟩ := idx_unfolds _ (List.range n) hnd rfl
+  have hfact : rk (List.range n) + 1 = PermLex.fact n := by
+    have := rk_asc (List.range n) hasc
+    rw [List.length_range, fact_bridge] at this
+    exact this
+  have hM : M = PermLex.permsN (List.range n).length (List.range n) := by
+    apply PermLex.eq_permsN_of_rk (List.range n) hasc M hm
+    rw [List.length_range, ← hfact, ← hrk]
+    apply List.map_congr_left
+    intro m _
+    exact (rk_bridge m).symm
+  rw [List.length_range] at hM
+  rw [← hM]; exact hu
+
+/-- from index vectors to elements -/
+theorem perm_unfolds_lift {α : Type} (base : List α) {o : Option (List Nat)} {M : List (List Nat)}
+    (h : Unfolds PermT.stepIdx o M) : Unfolds Perm.next ⟨base, o⟩ (M.map (pickAll base)) := by
+  induction h with
+  | @done o h =>
+    cases o with
+    | none => exact .done rfl
+    | some v => simp [PermT.stepIdx] at h
+  | @step o v o' M h _ ih =>
+    cases o with
+    | none => simp [PermT.stepIdx] at h
+    | some w =>
+      simp only [PermT.stepIdx, Option.map_some, Option.some.injEq, Prod.mk.injEq] at h
+      obtain ⟨rfl, rfl⟩ := h
+      exact .step rfl ih
+
+theorem pickAll_eq_map {α : Type} (xs : List α) (x0 : α) (q : List Nat) (h : ∀ i ∈ q, i < xs.length) :
+    pickAll xs q = q.map fun i => xs.getD i x0 := by
+  induction q with
+  | nil => rfl
+  | cons i q ih =>
+    have hi : i < xs.length := h i (by simp)
+    rw [CPowE.pickAll_cons xs i q _ (List.getElem?_eq_getElem hi), ih (fun j hj => h j (by simp [hj]))]
+    simp [List.getD_eq_getElem?_getD, List.getElem?_eq_getElem hi]
+
+/-- picking the elements at the index permutations gives the permutations of the elements -/
+theorem permsN_pick {α : Type} (xs : List α) :
+    (PermLex.permsN xs.length (List.range xs.length)).map (pickAll xs) = PermLex.permsN xs.length xs := by
+  cases xs with
+  | nil => rfl
+  | cons x0 rest =>
+    generalize hxs : x0 :: rest = xs
+    have hmap : xs = (List.range xs.length).map fun i => xs.getD i x0 := by
+      apply List.ext_getElem
+      · simp
+      · intro i h1 h2
+        simp [List.getD_eq_getElem?_getD, List.getElem?_eq_getElem h1]
+    conv => rhs; rw [hmap, PermLex.permsN_map]
+    simp only [List.length_map, List.length_range]
+    apply List.map_congr_left
+    intro q hq
+    apply pickAll_eq_map
+    intro i hi
+    have := (PermLex.permsN_perm xs.length (List.range xs.length) (by simp) q hq).subset hi
+    simpa using this
+
+/-- **`permutations(xs)` enumerates the lexicographic closed form `permsN |xs| xs`, in that order**,
+for every list of any element type -/
+theorem perms_enumeration_gen {α : Type} (xs : List α) :
+    Unfolds Perm.next (Perm.mk xs) (PermLex.permsN xs.length xs) := by
+  have := perm_unfolds_lift xs (perm_states_enumeration xs.length)
+  rw [permsN_pick] at this
+  exact this
+
+/-! ### the Spec's `lexPerms` is the shared closed form -/
+
+theorem flatMap_range_picks {α β : Type} (l : List α) : ∀ (g : α → List α → List β),
+    ((List.range l.length).flatMap fun i =>
+        match l[i]? with
+        | some x => g x (l.eraseIdx i)
+        | none => []) =
+      (PermLex.picks l).flatMap fun p => g p.1 p.2 := by
+  induction l with
+  | nil => intro g; rfl
+  | cons x xs ih =>
+    intro g
+    rw [List.length_cons, List.range_succ_eq_map, List.flatMap_cons, List.flatMap_map]
+    simp only [PermLex.picks, List.flatMap_cons, List.flatMap_map, List.getElem?_cons_zero,
+      List.eraseIdx_cons_zero]
+    congr 1
+    have := ih (fun a r => g a (x :: r))
+    rw [← this]
+    apply PermLex.flatMap_congr'
+    intro i _
+    simp [Function.comp, List.getElem?_cons_succ, List.eraseIdx_cons_succ]
+
+theorem lexPermsAux_eq {α : Type} : ∀ (n : Nat) (l : List α), lexPermsAux n l = PermLex.permsN n l := by
+  intro n
+  induction n with
+  | zero => intro l; rfl
+  | succ n ih =>
+    intro l
+    simp only [lexPermsAux, PermLex.permsN]
+    refine (flatMap_range_picks l (fun x r => (lexPermsAux n r).map (x :: ·))).trans ?_
+    apply PermLex.flatMap_congr'
+    intro p _
+    rw [ih]
+
+theorem perms_enumeration_lex {α : Type} (xs : List α) :
+    Unfolds Perm.next (Perm.mk xs) (lexPerms xs) := by
+  unfold lexPerms
+  rw [lexPermsAux_eq]
+  exact perms_enumeration_gen xs
+
+theorem perms_enumeration : perms_enumeration_statement := fun xs => perms_enumeration_lex xs
+
 end Noulith.C11
